@@ -84,8 +84,12 @@ STAGES = []       # set by pregen(): depends on whether the f = 0 defect is pres
 
 
 def _sphere_defect_present():
-    r = o_sphere({'a': 6051800.0, 'GM': 324869550209999.94, 'w': -2.9923691869737844e-07, 'lat': 45.0, 'h': 0.0})
-    return r is not None and r.get('tag') == FINDING
+    from vlib.core import call_outcome
+    for w in (-2.9923691869737844e-07, 2.9923691869737844e-07):     # Venus (retrograde); the sign is irrelevant to the defect
+        r = call_outcome(o_sphere, {'a': 6051800.0, 'GM': 324869550209999.94, 'w': w, 'lat': 45.0, 'h': 0.0})
+        if r[0] == 'val':
+            return r[1] is not None and r[1].get('tag') == FINDING
+    return False                                                     # the constructor raises: reported by the search, not here
 
 
 def pregen(ctx):
@@ -142,7 +146,7 @@ def _params(rng, n):
         GM = 6.6743e-11 * rho * 4.0 / 3.0 * math.pi * a ** 3 * (1 - f)
         m = 0.0499 if i == 2 else 10 ** rng.uniform(-9, math.log10(0.0499))
         w = math.sqrt(m * GM / (a * a * a * (1 - f)))
-        if i % 5 == 4:
+        if i % 3 == 1:                                           # retrograde rotation (Venus, Uranus, Pluto in the shipped table)
             w = -w
         if i % 11 == 10:
             w = 0.0
@@ -292,6 +296,13 @@ def o_gravity(inp):
     somig = (a * ge * c2 + b * gp * s2) / math.sqrt(a * a * c2 + b * b * s2)        # Somigliana's closed formula (first form)
     if _rel(e.normal_gravity(lat), somig) > TOL:
         return bad('somigliana', e.normal_gravity(lat), somig)
+    if w != 0:          # only w^2 enters the model: a retrograde body has the same gravity
+        er = _E({**inp, 'w': -w})
+        for nm_ in ('equatorial_normal_gravity', 'polar_normal_gravity', 'normal_gravity_potential', 'dynamical_form_factor'):
+            if getattr(er, nm_) != getattr(e, nm_):
+                return bad(f'{nm_}-not-even-in-w', getattr(er, nm_), getattr(e, nm_))
+        if er.normal_gravity(lat, hs[-1]) != e.normal_gravity(lat, hs[-1]):
+            return bad('not-even-in-w', er.normal_gravity(lat, hs[-1]), e.normal_gravity(lat, hs[-1]))
     prev = None
     for h in hs:
         g, gn = e.normal_gravity(lat, h), e.normal_gravity(-lat, h)
@@ -355,6 +366,12 @@ def o_body(inp):
     import ahrs.common.constants as C
     a_, b_ = getattr(C, nm + '_EQUATOR_RADIUS'), getattr(C, nm + '_POLAR_RADIUS')
     p = {'a': a_, 'f': (a_ - b_) / a_, 'GM': getattr(C, nm + '_GM'), 'w': getattr(C, nm + '_ROTATION'), 'via': via}   # what is PASSED
+    for v2 in ROUTES:
+        try:
+            e2 = _body_impl(nm, v2)
+            e2.equatorial_normal_gravity, e2.polar_normal_gravity, e2.normal_gravity(inp.get('lat', 45.0), inp.get('h', 0.0))
+        except Exception as ex:        # noqa: every body of the shipped table must be constructible and evaluable
+            return {'tag': f'body/{nm}/raises-{type(ex).__name__}', 'observed': f'{v2}: {str(ex)[:200]}', 'expected': 'finite gravity'}
     e = _body_impl(nm, via)
     r = o_classes({k: p[k] for k in IN})
     if r is not None:
@@ -415,10 +432,13 @@ def o_classes(inp):
     (also when f or w is exactly 0), b = a(1-f), and all four routes give bit-identical properties and normal gravity"""
     from vlib.core import call_outcome
     a, f, GM, w = inp['a'], inp['f'], inp['GM'], inp['w']
-    zero = 'f=0' if f == 0 else 'w=0' if w == 0 else 'generic'
+    zero = 'f=0' if f == 0 else 'w=0' if w == 0 else 'w<0' if w < 0 else 'generic'
     objs = {}
     for via in ROUTES:
-        e = _build(via, a, f, GM, w)
+        try:
+            e = _build(via, a, f, GM, w)
+        except Exception as ex:        # noqa: a parameter set of the property's domain must be constructible
+            return {'tag': f'{via}/constructor-raises-{type(ex).__name__}/{zero}', 'observed': str(ex)[:200], 'expected': 'an ellipsoid'}
         got = [e.a, e.f, e.gm, e.w]
         if not all(_same(float(x), float(y)) for x, y in zip(got, [a, f, GM, w])):
             return {'tag': f'{via}/constructor-echo/{zero}', 'observed': got, 'expected': [a, f, GM, w]}
